@@ -88,8 +88,6 @@ class Ctx:
     # ---------------------------------------------------------------- build
     def build(self, race=False, harness=True, gofasta=True):
         env = goenv()
-        if not os.path.exists(os.path.join(HARNESS, "go.sum")) or True:
-            shutil.copyfile(os.path.join(REPO, "go.sum"), os.path.join(HARNESS, "go.sum"))
         if gofasta:
             cmd = ["go", "build", "-tags", "verif", "-o", self.gofasta, "."]
             self._run_build(cmd, REPO, env)
@@ -99,8 +97,18 @@ class Ctx:
                 cmd = ["go", "build", "-race", "-tags", "verif", "-o", self.gofasta + "-race", "."]
                 self._run_build(cmd, REPO, e2)
         if harness:
+            # build from a scratch copy whose go.mod points at the repository under test (VERIF_REPO, default /repo)
+            hdir = os.path.join(self.work, "harness-src")
+            if os.path.isdir(hdir):
+                shutil.rmtree(hdir)
+            shutil.copytree(HARNESS, hdir)
+            gm = os.path.join(hdir, "go.mod")
+            txt = open(gm).read().replace("=> /repo", "=> " + REPO)
+            open(gm, "w").write(txt)
+            shutil.copyfile(os.path.join(REPO, "go.sum"), os.path.join(hdir, "go.sum"))
+            self.harness_src = hdir
             cmd = ["go", "build", "-tags", "verif", "-o", self.vharness, "."]
-            self._run_build(cmd, HARNESS, env)
+            self._run_build(cmd, hdir, env)
 
     def _run_build(self, cmd, cwd, env):
         t = time.time()
